@@ -140,6 +140,10 @@ Definition mask_rows (m : list bool) (l : list row) : list row :=
 Fixpoint pick_rows (idx : list nat) (l : list row) (d : row) : list row :=
   match idx with [] => [] | i :: t => nth i l d :: pick_rows t l d end.
 
+Lemma In_firstn n (l : list row) r : In r (firstn n l) -> In r l.
+Proof. intro H. rewrite <- (firstn_skipn n l). apply in_or_app. left; exact H. Qed.
+Lemma In_skipn n (l : list row) r : In r (skipn n l) -> In r l.
+Proof. intro H. rewrite <- (firstn_skipn n l). apply in_or_app. right; exact H. Qed.
 Lemma head_tail_sublist n l : exists rest, l = head_rows n l ++ rest.
 Proof. exists (skipn n l). unfold head_rows. symmetry. apply firstn_skipn. Qed.
 Lemma tail_length n l : length (tail_rows n l) = Nat.min n (length l).
